@@ -736,6 +736,17 @@ func (c *evalCtx) call(x *ast.CallExpr) tval {
 		}
 		t := c.term(arg(0))
 		return tval{Lt(c.old.alloc, t), tBool}
+	case "elemAt":
+		// elemAt(T, a, i): element i of the backing array a of element type T (raw access, for frame clauses)
+		et := c.parseType(exprString(arg(0)))
+		ls, ok := c.r.v.leafSort(et)
+		if !ok {
+			c.fail("elemAt of %s", et)
+		}
+		comp := "Elem[" + typeString(et) + "]"
+		sig := compSort(ls, 2)
+		e := c.st.compAt(c.cur, comp, sig)
+		return tval{mk(ls, "(select (select %s %s) %s)", e, c.term(arg(1)).S, c.term(arg(2)).S), et}
 	case "allocated":
 		t := c.term(arg(0))
 		a := c.st.alloc
